@@ -126,6 +126,9 @@ type c09Family struct {
 	header string
 	footer string
 	items  []c09Item
+	// lint, when set, replaces the default way of linting a composed source (project families: the
+	// source is a file of a repository with a local action and local reusable workflows)
+	lint func(src string) vLintResult
 }
 
 // compose renders header + items and returns the line range of each item.
@@ -241,6 +244,21 @@ func TestVerifC09(t *testing.T) {
 		{name: "caliasneeds", text: "  caliasneeds:\n    needs: [cplain]\n    runs-on: ubuntu-latest\n    strategy:\n      matrix:\n        include:\n          - ${{ needs.cplain.outputs }}\n          - zz: 1\n    steps:\n      - run: echo ${{ matrix.zz }}\n", deps: []string{"cplain"}},
 		{name: "cvictimneeds", text: "  cvictimneeds:\n    needs: [cplain]\n    runs-on: ubuntu-latest\n    steps:\n      - run: echo ${{ needs.cplain.outputs.zz }} ${{ needs.cplain.outputs.o }}\n", deps: []string{"cplain"}},
 	}})
+	// jobs of a workflow inside a repository: calls of local reusable workflows (one that exists, one
+	// whose file is missing, one that is not callable, one with an ill-formed spec), jobs that need
+	// them - written before or after the call job - and steps with local actions. What is reported
+	// for a call job, and by which rule, does not depend on where the jobs that need it stand.
+	families = append(families, &c09Family{name: "project-jobs", header: "on: push\njobs:\n", lint: vProjectLint(t), items: []c09Item{
+		{name: "pcallok", text: "  pcallok:\n    uses: ./.github/workflows/callee.yml\n    with:\n      cstr: x\n      nosuchinput: y\n    secrets:\n      csec: x\n"},
+		{name: "pneedok", text: "  pneedok:\n    needs: [pcallok]\n    runs-on: ubuntu-latest\n    steps:\n      - run: echo ${{ needs.pcallok.outputs.cout }} ${{ needs.pcallok.outputs.nosuch }}\n", deps: []string{"pcallok"}},
+		{name: "pcallmissing", text: "  pcallmissing:\n    uses: ./.github/workflows/missing.yml\n"},
+		{name: "pneedmissing", text: "  pneedmissing:\n    needs: [pcallmissing]\n    runs-on: ubuntu-latest\n    steps:\n      - run: echo ${{ needs.pcallmissing.outputs.x }} ${{ needs.pcallmissing.nosuch }}\n", deps: []string{"pcallmissing"}},
+		{name: "pcallnotcallable", text: "  pcallnotcallable:\n    uses: ./.github/workflows/caller.yml\n"},
+		{name: "pneednotcallable", text: "  pneednotcallable:\n    needs: [pcallnotcallable]\n    runs-on: ubuntu-latest\n    steps:\n      - run: echo ${{ needs.pcallnotcallable.outputs.x }}\n", deps: []string{"pcallnotcallable"}},
+		{name: "pcallillformed", text: "  pcallillformed:\n    uses: ./.github/workflows/callee.yml@v1\n"},
+		{name: "pneedillformed", text: "  pneedillformed:\n    needs: [pcallillformed]\n    runs-on: ubuntu-latest\n    steps:\n      - run: echo ${{ needs.pcallillformed.outputs.x }}\n", deps: []string{"pcallillformed"}},
+		{name: "pact", text: "  pact:\n    runs-on: ubuntu-latest\n    steps:\n      - uses: ./act\n        id: s\n        with:\n          nosuch: 1\n      - run: echo ${{ steps.s.outputs.out1 }} ${{ steps.s.outputs.nosuch }}\n"},
+	}})
 	// jobs whose runner labels are spelled in several letter cases, under a configuration that
 	// declares self-hosted labels (exact and glob): what one job's label resolved to must not
 	// decide another job's
@@ -331,7 +349,7 @@ func TestVerifC09(t *testing.T) {
 	aloneCache := map[string][]string{}
 	var idx int64
 	for _, f := range families {
-		maxLen := map[string]int{"jobs": jobLen, "steps": stepLen, "exprs": exprLen, "call-jobs": 4, "label-jobs": 4, "default-shell-python": 3, "default-shell-bash": 3, "default-shell-pwsh": 3}[f.name]
+		maxLen := map[string]int{"jobs": jobLen, "steps": stepLen, "exprs": exprLen, "call-jobs": 4, "project-jobs": 3, "label-jobs": 4, "default-shell-python": 3, "default-shell-bash": 3, "default-shell-pwsh": 3}[f.name]
 		c09Sequences(len(f.items), maxLen, func(sel []int) bool {
 			idx++
 			if !r.Mine(idx) {
@@ -348,6 +366,10 @@ func TestVerifC09(t *testing.T) {
 			// too (then the reference also lacks it)
 			src, ranges := f.compose(seq)
 			r.Begin(func() string { return fmt.Sprintf("%s sequence %v", f.name, sel) })
+			lint := lint
+			if f.lint != nil {
+				lint = f.lint
+			}
 			res := lint(src)
 			r.Evaluations++
 			r.Transitions++
